@@ -16,6 +16,7 @@ import (
 	"fmt"
 	"image"
 	"io/ioutil"
+	"math"
 	"net/http"
 	"net/url"
 	"os"
@@ -2272,9 +2273,20 @@ func (d *Data) newLabel(v dvid.VersionID) (uint64, error) {
 func (d *Data) newLabels(v dvid.VersionID, numLabels uint64) (begin, end uint64, err error) {
 	if numLabels <= 0 {
 		err = fmt.Errorf("cannot request %d new labels, must be 1 or more", numLabels)
+		return
 	}
 	d.mlMu.Lock()
 	defer d.mlMu.Unlock()
+
+	// The label space is 64 bits: refuse a request that would wrap the counter around.
+	last := d.MaxRepoLabel
+	if d.NextLabel != 0 {
+		last = d.NextLabel
+	}
+	if numLabels > math.MaxUint64-last {
+		err = fmt.Errorf("cannot issue %d new labels after label %d: not enough 64-bit labels left", numLabels, last)
+		return
+	}
 
 	// Increment and store.
 	if d.NextLabel != 0 {
